@@ -44,7 +44,7 @@ class StageSpec(Spec):
     def __init__(self, cfg, tier):
         super().__init__(cfg, tier)
         self.max_depth = cfg["depth"]
-        self.time_budget = 50 if tier == "quick" else 850
+        self.time_budget = 600 if tier == "quick" else 1500   # safety net only
         self.host = Host(gap=cfg["gap"], pace=cfg["pace"], extra=dict(connect=1, in_valid=1, in_payload=0x5A, out_ready=1))
         self.reqs = cfg["reqs"]
         self.la = cfg.get("la", list(REQS) if tier == "thorough" else cfg["reqs"])
